@@ -38,7 +38,7 @@ m = {
         {"name": "lean-models", "path": "lean/", "serves_properties": [c["property_id"] for c in checks], "kind_free_text": "Lean 4 executable models (BumpVerif/Model), lemmas (Proofs), property theorems (Props), line-protocol driver (Driver/Main.lean -> bvdrv)"},
         {"name": "rust-harness", "path": "harness/", "serves_properties": [c["property_id"] for c in checks], "kind_free_text": "in-process differential harness with instrumented #[global_allocator], plan generator, model-independent oracles"},
         {"name": "extractor", "path": "tools/extract.py", "serves_properties": [c["property_id"] for c in checks], "kind_free_text": "translator regenerating lean/BumpVerif/Gen/*.lean from /repo/src on every run (constants, tables, signatures, delegating impls)"},
-        {"name": "body-translator", "path": "tools/rs2lean.py", "serves_properties": sorted(getattr(specs, "GEN_MODS", {})), "kind_free_text": "Rust-subset parser (tools/rsparse.py) + CPS translator of function bodies (src/lib.rs, collections/raw_vec.rs, collections/vec.rs; tools/rs2lean_box.py for boxed.rs, tools/rs2lean_lossy.py for collections/str/lossy.rs, tools/rs2lean_str.py for collections/string.rs, tools/rs2lean_chunks.py for the chunk-list walkers and tools/rs2lean_typed.py for the typed allocation methods of lib.rs, tools/rs2lean_splice.py for Drain::fill / move_tail, tools/rs2lean_slices.py for Vec::extend_from_slices_copy, tools/rs2lean_splicedrop.py for Drop for Splice, tools/rs2lean_strfwd.py for String's capacity forwards) into Lean definitions (Gen/Fn*.lean), each proved equal to the hand-written model function in Props/GenFn*.lean; model-level witness search lean/Driver/GenDiff.lean"},
+        {"name": "body-translator", "path": "tools/rs2lean.py", "serves_properties": sorted(getattr(specs, "GEN_MODS", {})), "kind_free_text": "Rust-subset parser (tools/rsparse.py) + CPS translator of function bodies (src/lib.rs, collections/raw_vec.rs, collections/vec.rs; tools/rs2lean_box.py for boxed.rs, tools/rs2lean_lossy.py for collections/str/lossy.rs, tools/rs2lean_str.py for collections/string.rs, tools/rs2lean_chunks.py for the chunk-list walkers and tools/rs2lean_typed.py for the typed allocation methods of lib.rs, tools/rs2lean_splice.py for Drain::fill / move_tail, tools/rs2lean_slices.py for Vec::extend_from_slices_copy, tools/rs2lean_splicedrop.py for Drop for Splice, tools/rs2lean_strfwd.py for String's capacity forwards; tools/rs2lean_fwd.py pins the shape (view / forward) or the text fingerprint of every function no translator covers) into Lean definitions (Gen/Fn*.lean), each proved equal to the hand-written model function in Props/GenFn*.lean; model-level witness search lean/Driver/GenDiff.lean"},
     ],
     "checks": checks,
     "not_applicable": na,
